@@ -778,3 +778,178 @@ def check_C08(run):
 
 
 CHECKS["C08"] = check_C08
+
+
+# ============================================================================= C06 (and shared durable-state checks)
+
+from . import invariants as I  # noqa: E402
+
+
+def durable_violations(scn, op, git, before, after, trace, root, arch_path=None):
+    """Invariant I of DESIGN.md C06 on a surviving disk state.  Returns [(signature, detail)]."""
+    probs = []
+    rows_b = before["rows"] if before and isinstance(before["rows"], list) else []
+    rows_a = after["rows"]
+    if isinstance(rows_a, str):
+        if rows_b:
+            probs.append(("version-index-unreadable-after-%s" % op["op"], {"error": rows_a}))
+        return probs
+    if rows_a is None:
+        return probs
+    kind = op["op"]
+    bset = {tuple(r) for r in rows_b}
+    ok = I.successful_execs(trace)
+    tree_a, tree_b = after["tree"], (before or {}).get("tree", {})
+    exp_commit = git.head_hash if (git.uses_git and git.head) else None
+    exp_dirty = 1 if (exp_commit and git.dirty) else 0
+    for r in rows_a:
+        rel = M.out_dir_rel(r[0], r[1])
+        if tuple(r) in bset:
+            if kind == "clean":
+                continue
+            b, a = I.subtree(tree_b, rel), I.subtree(tree_a, rel)
+            if a != b:
+                probs.append(("recorded-version-directory-%s-by-%s" % ("lost" if not a else "changed", kind),
+                              {"dir": rel}))
+            continue
+        if kind == "run":
+            names = sorted(n for n in ok if n.rsplit("#", 1)[0] == r[0])
+            if not names:
+                probs.append(("version-recorded-for-execution-that-did-not-exit-0", {"row": list(r)}))
+                continue
+            execno = int(names[0].rsplit("#", 1)[1])
+            for what, det in I.check_version_dir(scn, op, r[0], r[1], tree_a, root, execno):
+                probs.append((what, det))
+            if r[2] != exp_commit or r[3] != exp_dirty:
+                probs.append(("version-recorded-with-wrong-commit-or-dirty-flag",
+                              {"row": list(r), "expected": [exp_commit, exp_dirty]}))
+        elif kind == "restore":
+            at = I.archive_trees(arch_path) if arch_path else None
+            if at is None:
+                probs.append(("version-recorded-from-unreadable-archive", {"row": list(r)}))
+                continue
+            want = I.subtree(at, rel)
+            got = I.subtree(tree_a, rel)
+            if not got:
+                probs.append(("recorded-version-without-directory", {"dir": rel, "by": "restore"}))
+            elif got != want:
+                missing = sorted(set(want) - set(got))[:5]
+                probs.append(("restored-version-directory-incomplete", {"dir": rel, "missing": missing}))
+        else:
+            probs.append(("version-recorded-by-%s" % kind, {"row": list(r)}))
+    return probs
+
+
+def check_C06(run):
+    V, facts = [], {"nontrivial": [], "reach": {}, "evaluations": 0}
+    reach = facts["reach"]
+    for i, st in enumerate(run.steps):
+        inv = st.inv
+        if inv is None or st.before is None or st.after is None:
+            continue
+        if st.op["op"] == "clean":
+            continue
+        git = M.GitView(st.git, st.disable_git)
+        arch = getattr(st, "archive_path", None)
+        for sig, det in durable_violations(run.scn, st.op, git, st.before, st.after, inv.trace, run.root, arch):
+            V.append(Violation("C06", sig + (" [after kill]" if inv.killed else ""), det, i))
+        rows_b = st.before["rows"] if isinstance(st.before["rows"], list) else []
+        rows_a = st.after["rows"] if isinstance(st.after["rows"], list) else []
+        if len(rows_a) > len(rows_b):
+            facts["nontrivial"].append("newrows-%s%s" % (st.op["op"], "-killed" if inv.killed else ""))
+        if inv.killed:
+            reach["history_kill_%s" % st.op["op"]] = reach.get("history_kill_%s" % st.op["op"], 0) + 1
+    for rec in getattr(run, "enum", []):
+        facts["evaluations"] += 1
+        if rec["killed"]:
+            facts["nontrivial"].append("kill@%s" % rec["where"])
+            reach["kills_enumerated"] = reach.get("kills_enumerated", 0) + 1
+            w = rec["where"] or ""
+            for key, pat in (("kill_inside_finish_or_commit", ("commit", "insert_output_version", "serialize_json", "finish")),
+                             ("kill_inside_restore_copy", ("copytree", "copy2", "copyfile", "_copytree")),
+                             ("kill_inside_rmtree", ("rmtree", "_rmtree_safe_fd"))):
+                if any(p_ in w for p_ in pat):
+                    reach[key] = reach.get(key, 0) + 1
+        for sig, det in rec["violations"]:
+            V.append(Violation("C06", sig + " [kill in %s]" % rec["op"], dict(det, k=rec["k"], where=rec["where"]),
+                               rec["step"]))
+    if getattr(run, "enum_info", None):
+        facts["enum_info"] = run.enum_info
+    return V, facts
+
+
+CHECKS["C06"] = check_C06
+
+
+# ============================================================================= C12
+
+def restore_violations(before, after, inv_code, killed, archive_rows, internal=None):
+    probs = []
+    rows_b = before["rows"] if before and isinstance(before["rows"], list) else []
+    rows_a = after["rows"]
+    if isinstance(rows_a, str):
+        if rows_b:
+            probs.append(("version-index-unreadable-after-restore", {"error": rows_a}))
+        return probs
+    rows_a = rows_a or []
+    success = (inv_code == 0 and not killed)
+    bset, aset = {tuple(r) for r in rows_b}, {tuple(r) for r in rows_a}
+    if killed and archive_rows is not None and aset == bset | {tuple(r) for r in archive_rows} and aset != bset:
+        # the kill came after the restore had committed: that is the "all" of all-or-nothing
+        success = True
+    if not success:
+        if aset != bset:
+            gained, lost = sorted(aset - bset), sorted(bset - aset)
+            what = "partial-restore-left-recorded-versions" if gained and not lost else "failed-restore-changed-recorded-versions"
+            probs.append((what + ("-after-kill" if killed else ""), {"gained": gained[:4], "lost": lost[:4]}))
+    else:
+        if archive_rows is None:
+            probs.append(("restore-reported-success-for-unreadable-archive", {}))
+        else:
+            for r in archive_rows:
+                if tuple(r) not in aset:
+                    probs.append(("successful-restore-did-not-record-a-version", {"row": list(r)}))
+                elif after["tree"].get(M.out_dir_rel(r[0], r[1])) != ("d",):
+                    probs.append(("successful-restore-recorded-version-without-directory", {"row": list(r)}))
+    # existing version directories are never modified
+    for r in rows_b:
+        rel = M.out_dir_rel(r[0], r[1])
+        b, a = I.subtree(before["tree"], rel), I.subtree(after["tree"], rel)
+        if b and a != b:
+            probs.append(("restore-modified-an-existing-version-directory", {"dir": rel}))
+    return probs
+
+
+def check_C12(run):
+    V, facts = [], {"nontrivial": [], "reach": {}, "evaluations": 0}
+    reach = facts["reach"]
+    for i, st in enumerate(run.steps):
+        inv = st.inv
+        if inv is None or st.op["op"] != "restore" or st.before is None or st.after is None:
+            continue
+        for sig, det in restore_violations(st.before, st.after, inv.code, inv.killed, st.archive_info):
+            V.append(Violation("C12", sig, det, i))
+        outcome = "ok" if inv.code == 0 else "fail"
+        corrupt = (st.op.get("corrupt") or {}).get("kind", "intact")
+        rows_b = st.before["rows"] if isinstance(st.before["rows"], list) else []
+        prior = "empty" if not rows_b else "rows%d" % min(len(rows_b), 3)
+        facts["nontrivial"].append("%s-%s-%s" % (outcome, corrupt, prior))
+        reach["restore_%s_%s" % (outcome, corrupt)] = reach.get("restore_%s_%s" % (outcome, corrupt), 0) + 1
+        err = inv.err.decode("utf-8", "replace")
+        if "already exist" in err or "DuplicateTaskOutput" in err or (inv.internal and "FileExists" in inv.internal[0]):
+            reach["restore_duplicate_or_preexisting"] = reach.get("restore_duplicate_or_preexisting", 0) + 1
+    for rec in getattr(run, "enum", []):
+        facts["evaluations"] += 1
+        if rec["killed"]:
+            facts["nontrivial"].append("kill@%s" % rec["where"])
+            reach["kills_enumerated"] = reach.get("kills_enumerated", 0) + 1
+            if rec.get("dirs_copied"):
+                reach["restore_killed_after_a_directory_was_copied"] = reach.get("restore_killed_after_a_directory_was_copied", 0) + 1
+        for sig, det in rec["violations"]:
+            V.append(Violation("C12", sig, dict(det, k=rec["k"], where=rec["where"]), rec["step"]))
+    if getattr(run, "enum_info", None):
+        facts["enum_info"] = run.enum_info
+    return V, facts
+
+
+CHECKS["C12"] = check_C12
